@@ -19,6 +19,7 @@ import (
 	"io/ioutil"
 	"math"
 	"net/http/httptest"
+	"net/url"
 	"sort"
 	"strconv"
 	"strings"
@@ -428,8 +429,17 @@ func c14Ct(ct string) string {
 
 type c14Req struct{ Method, Path, Ctype, Body string }
 
+// c14DecodedPath: what r.URL.Path holds for this request target (percent-escapes decoded)
+func c14DecodedPath(path string) string {
+	u, err := url.ParseRequestURI("http://dummyUrl" + path)
+	if err != nil {
+		return path
+	}
+	return u.Path
+}
+
 func (w *c14World) abstract(q c14Req) J {
-	route := c14Route(q.Path)
+	route := c14Route(c14DecodedPath(q.Path))
 	a := J{"m": c14Meth(q.Method), "route": route, "ct": c14Ct(q.Ctype), "raw": "",
 		"toml": J{"k": "err"}, "csv": J{"k": "err"}, "json": J{"k": "err"}}
 	k := route["k"]
